@@ -29,6 +29,15 @@ CHECKS = {
              "object validate() sorted.",
         ref="6 (C07)", technique="Coq proof (sorting uniqueness + list induction) + exhaustive small-scope correspondence",
         note="Assumes C01/C02/C12 of the scheme (total preorder, consistent operators, equal versions hash alike); set() is modelled as de-duplication by ==."),
+    "C08": dict(
+        text="Theorem for every version type with a total preorder and every version-sorted list with pairwise distinct versions, of any length and comparator "
+             "pattern: the code-shaped model of VersionConstraint.simplify() (deduplicate + the index walk of simplify_constraints + sorted(set())) returns a sub-list "
+             "of its input with the same membership (the property's nearest-bound meaning, written independently and proved equal to C04's denotation on well-formed "
+             "ranges), which validation accepts and which is a fixed point. Proved via an invariant of the walk (processed prefix irreducible, meaning preserved by each "
+             "of the two rules, fuel bound 2n). The model mirrors the code after the fix: commit in /repo. Correspondence exhaustive over all comparator patterns "
+             "up to the tier bound, with all four conclusions also evaluated directly on the implementation.",
+        ref="6 (C08), Appendix E.2", technique="Coq proof (loop invariant + rule lemmas over a state-machine semantics) + exhaustive small-scope correspondence",
+        note="Assumes C01/C02/C12 of the scheme. The original walk violated the property (DESIGN section 9 item 9); it was repaired by a fix: commit and the model follows the repaired code."),
     "C09": dict(
         text="Theorems for every version type with a total preorder: inverting a single constraint flips membership (case analysis over the inversion table "
              "transcribed from /repo by executing VersionConstraint.invert on every comparator); '*' has no inverse; for every non-empty well-formed non-vacuous "
@@ -36,6 +45,15 @@ CHECKS = {
              "inverting twice returns the original list (no side condition). Correspondence exhaustive over comparator patterns up to the tier bound x all probes.",
         ref="6 (C09)", technique="Coq proof (characterisation of the interval denotation by cut positions) + exhaustive small-scope correspondence",
         note="Assumes C01/C02 of the scheme. The empty constraint list is not a vers range and is excluded (DESIGN section 9)."),
+    "C10": dict(
+        text="Proved in Coq for every version type and every range/known list: normalize depends on the range only through membership of the known versions "
+             "(hence equal results for ranges that agree on them), no member gives the empty range, every emitted segment is one exact known version or one closed "
+             "interval between known versions, and from_versions contains exactly the versions equal to a listed one. The remaining clauses (result validates, same "
+             "membership on known versions, independence of order and duplication) are stated as C10_full_statement, not yet proved, and are decided by evaluating all "
+             "clauses on the implementation over every well-formed pattern up to the tier bound x every subset of the probe grid as universe (shuffled, duplicated, "
+             "respelled), together with the model/implementation correspondence of normalize().",
+        ref="6 (C10)", technique="Coq proof of part of the statement (labelled partial) + exhaustive small-scope evaluation and model correspondence",
+        note="PARTIAL: validity/membership/order-independence of normalize() are checked exhaustively in small scope on the implementation, not proved. Assumes C01/C02/C12 of the scheme."),
     "C14": dict(
         text="Finite theorems (vm_compute over the enumerated class tables, lifted by forallb_forall) re-checked on every run against tables "
              "regenerated from the live classes: every ordering operator between unrelated version classes ends in TypeError under CPython's "
